@@ -103,6 +103,14 @@ def raw(obj):
     return {"raw": cbor2.dumps(obj, default=default_encoder).hex()}
 
 
+def raw_field(v):
+    """the primitive of a field value as an opaque leaf (an OrderedSet is a `list` subclass: cbor2 would write it as a bare
+    array without consulting the default encoder, so its own `to_primitive` is taken first)"""
+    if isinstance(v, CBORSerializable):
+        v = v.to_primitive()
+    return raw(v)
+
+
 def to_val(x):
     """dynamic, like `to_primitive`: dispatch on the runtime class of the value"""
     from pycardano.hash import ConstrainedBytes
@@ -133,7 +141,9 @@ def to_val(x):
         return raw(x)
     if dataclasses.is_dataclass(x) and isinstance(x, CBORSerializable) and generic_enc(type(x).__name__):
         d = SCH[type(x).__name__]
-        return {"o": [d["name"], [to_val(getattr(x, f["name"])) for f in enc_fields(d)]]}
+        # a field restored by its `object_hook` (hand-written code) is an opaque leaf of the model: its primitive
+        return {"o": [d["name"], [raw_field(getattr(x, f["name"])) if f["hook"] and getattr(x, f["name"]) is not None
+                                  else to_val(getattr(x, f["name"])) for f in enc_fields(d)]]}
     return raw(x)
 
 
